@@ -401,6 +401,17 @@ class Builder:
                 if fo is not None:
                     tail = fo
                     break
+            if st["k"] == "expr" and st["e"]["k"] == "loop" and i == len(stmts) - 1:
+                # `let mut acc = FIRST.parse_next(input)?;
+                #  loop { let ck = input.checkpoint();
+                #         match STEP.parse_next(input) { Ok(v) => acc = F(acc, v),
+                #                                        Err(ErrMode::Backtrack(_)) => { input.reset(&ck); return Ok(acc) }
+                #                                        Err(e) => return Err(e) } }`
+                # is winnow's `repeat(0.., STEP).fold(|| acc, F)` written out (its progress check aside: C03.progress)
+                fo = self._loop_fold(st["e"], steps, env)
+                if fo is not None:
+                    tail = fo
+                    break
             if st["k"] == "expr":
                 e = st["e"]
                 if last and not st["semi"]:
@@ -499,6 +510,80 @@ class Builder:
                     key, ts = r
                     return N("ref", e, fn=key, targs=ts, extra=e["args"][1:])
         return None
+
+    def _loop_fold(self, w, steps, env):
+        inp = env.get("__input")
+        body = [x for x in w["body"]["stmts"] if x["k"] != "item"]
+        if len(body) != 2 or body[0]["k"] != "let" or body[0]["pat"].get("k") != "ident" or body[1]["k"] != "expr":
+            return None
+        ck = body[0]["pat"]["name"]
+        ci = body[0].get("init")
+        if not (ci and ci["k"] == "mcall" and ci["m"] == "checkpoint" and not ci["args"] and self._is_input(ci["recv"], env)):
+            return None
+        mt = body[1]["e"]
+        if mt["k"] != "match" or len(mt["arms"]) != 3 or any(a_["guard"] is not None for a_ in mt["arms"]):
+            return None
+        if mt["scrut"]["k"] == "try":
+            return None
+        inv = self._invocation(mt["scrut"], env, allow_try=False)
+        if inv is None:
+            return None
+        okarm = backarm = errarm = None
+        for a_ in mt["arms"]:
+            q = a_["pat"]
+            if q["k"] != "tstruct" or len(q["elems"]) != 1:
+                return None
+            if q["segs"] == ["Ok"]:
+                okarm = a_
+            elif q["segs"] == ["Err"]:
+                r = q["elems"][0]
+                if r["k"] == "tstruct" and r["segs"][-1] == "Backtrack" and errarm is None:
+                    backarm = a_
+                elif r["k"] == "ident" and r.get("sub") is None:
+                    errarm = a_
+                else:
+                    return None
+            else:
+                return None
+        if not (okarm and backarm and errarm):
+            return None
+        # Ok(v) => acc = RHS
+        ob = okarm["body"]
+        if ob["k"] == "block":
+            real = [x for x in ob["stmts"] if x["k"] != "item"]
+            if len(real) != 1 or real[0]["k"] != "expr":
+                return None
+            ob = real[0]["e"]
+        if ob["k"] != "assign" or not (ob["lhs"]["k"] == "path" and len(ob["lhs"]["segs"]) == 1):
+            return None
+        acc = ob["lhs"]["segs"][0]
+        bound = [s_ for s_ in steps if s_["pat"].get("k") == "ident" and s_["pat"].get("name") == acc]
+        if len(bound) != 1 or F.find_all(ob["rhs"], lambda n_: n_.get("k") == "path" and n_["segs"] == [inp]):
+            return None
+        # Err(Backtrack(_)) => { input.reset(&ck); return Ok(acc); }
+        bb = [x for x in backarm["body"]["stmts"] if x["k"] != "item"] if backarm["body"]["k"] == "block" else []
+        if len(bb) != 2 or bb[0]["k"] != "expr" or bb[1]["k"] != "expr":
+            return None
+        rs, rt = bb[0]["e"], bb[1]["e"]
+        if not (rs["k"] == "mcall" and rs["m"] == "reset" and len(rs["args"]) == 1 and self._is_input(rs["recv"], env) and strip_refs(rs["args"][0]).get("segs") == [ck]):
+            return None
+        is_ret = lambda e_, ctor, name: e_["k"] == "return" and e_.get("e") is not None and e_["e"]["k"] == "call" and e_["e"]["f"].get("k") == "path" and e_["e"]["f"]["segs"] == [ctor] and len(e_["e"]["args"]) == 1 and e_["e"]["args"][0].get("k") == "path" and e_["e"]["args"][0]["segs"] == [name]
+        if not is_ret(rt, "Ok", acc):
+            return None
+        # Err(e) => return Err(e)
+        eb = errarm["body"]
+        if eb["k"] == "block":
+            real = [x for x in eb["stmts"] if x["k"] != "item"]
+            if len(real) != 1 or real[0]["k"] != "expr":
+                return None
+            eb = real[0]["e"]
+        if not is_ret(eb, "Err", errarm["pat"]["elems"][0]["name"]):
+            return None
+        l = w.get("l")
+        accp = {"k": "path", "l": l, "segs": [acc], "gen": [[]], "qself": None, "global": False}
+        init = {"k": "closure", "l": l, "params": [], "body": {"k": "mcall", "l": l, "recv": accp, "m": "clone", "targs": [], "args": []}, "move": True}
+        step = {"k": "closure", "l": l, "params": [{"k": "ident", "l": l, "name": acc, "by_ref": False, "mut": False, "sub": None}, okarm["pat"]["elems"][0]], "body": ob["rhs"], "move": False}
+        return N("fold", w, p=N("rep", w, min=0, max=None, p=inv, from_while=w), init=init, step=step, from_while=w)
 
     def _while_fold(self, w, after, steps, env):
         c = w["cond"]
